@@ -300,7 +300,16 @@ def handle (op : String) (args : List String) (impl : String) : String :=
     | none => badReq "hex"
   | "meta", [h] =>
     match bytesOfHex h with
-    | some _ => answer "ok" (if isPanicObs impl then "fails:" ++ clsBuilderPanic else "holds") "meta"
+    -- every string setter, `epoch`, all nine scriptlet setters (from text and from a `Scriptlet`), all eight dependency setters
+    -- (through eight constructors), a changelog entry and a file with that text as owner / group / link, built through
+    -- `build` (even length) / `build_and_sign` (odd length), written, re-parsed and read back: `ok rt=all` — everything came
+    -- back as given — or `ok rt=<fields that did not>`. A header string ends at its first NUL, so a text with a NUL comes back
+    -- cut (no prediction there); any other text must come back whole (model: `C06.readback_*` over `Bld.Cfg.applyAll`).
+    | some t =>
+      let nul := t.contains 0
+      answer (if nul then "*" else "ok rt=all")
+        (if isPanicObs impl then "fails:" ++ clsBuilderPanic else if !nul && impl.startsWith "ok rt=" && impl != "ok rt=all" then "fails:meta-readback" else "holds")
+        (if nul then "meta:nul" else "meta")
     | none => badReq "hex"
   | "wfile17", _ => RpmVerif.Driver.WithFile.handle false args impl
   | "layout", [l] =>
